@@ -222,7 +222,7 @@ Definition px_rslv (app : Z) : Z := px_base app + 3.
 (* callbacks: 0 on_accept, 1 on_read_request, 2 on_domain_lookup, 3 on_connected, 4 on_server_write,
    5 on_server_receive, 6 on_server_forward, 7 close_connection (after error()) *)
 
-Definition get_proxy (w : net) (app : Z) : proxy := mget (mkProxy 0 false [] [] false false) (w_proxy w) app.
+Definition get_proxy (w : net) (app : Z) : proxy := mget (mkProxy 0 false [] [] false false [] 0) (w_proxy w) app.
 Definition set_proxy (w : net) (app : Z) (p : proxy) : net := w <| w_proxy := mset (w_proxy w) app p |>.
 
 (* ---- the string functions forward_request uses ---- *)
@@ -365,8 +365,15 @@ Definition proxy_close_connection (cx : ctx) (app : Z) (w : net) : net * list kc
   if px_close p then (w, c0 ++ c1)
   else let (w, c2) := proxy_accept cx app w in (w, c0 ++ c1 ++ c2).
 
+(* the buffer as memory: [n] bytes written at [off] *)
+Definition pad_to (n : nat) (l : list Z) : list Z := l ++ repeat 0 (n - List.length l).
+Definition phys_write (phys : list Z) (off : Z) (data : list Z) : list Z :=
+  let o := Z.to_nat off in
+  firstn o (pad_to o phys) ++ data ++ skipn (o + List.length data) phys.
+
 Definition proxy_read_client (app : Z) (w : net) : net * list kc :=
   let p := get_proxy w app in
+  let w := set_proxy w app (p <| px_roff := Z.of_nat (List.length (px_cin p)) |>) in
   let (w, c0) := tcp_abort_recv (px_client app) w in
   let (w, c1) := tcp_async_read_impl (px_client app) [65536 - Z.of_nat (List.length (px_cin p))] (hid_app app 1) w in
   (w, c0 ++ c1).
@@ -436,6 +443,12 @@ Definition proxy_forward (cx : ctx) (app : Z) (out host : list Z) (port : Z) (w 
       end
     else let (w, c) := proxy_write_server cx app w in (w, c, true).
 
+(* memmove(buf, buf + len, num - len): what lies behind the moved bytes stays where it was *)
+Definition proxy_consume (w : net) (app len : Z) : net :=
+  let p := get_proxy w app in
+  let rest := skipn (Z.to_nat len) (px_cin p) in
+  set_proxy w app (p <| px_cin := rest |> <| px_phys := rest ++ skipn (List.length rest) (px_phys p) |>).
+
 (* the while loop of on_read_request *)
 Fixpoint proxy_requests (fuel : nat) (cx : ctx) (app : Z) (w : net) : net * list kc :=
   match fuel with
@@ -446,9 +459,7 @@ Fixpoint proxy_requests (fuel : nat) (cx : ctx) (app : Z) (w : net) : net * list
       | PForward len out host port =>
           let '(w, c0, ok) := proxy_forward cx app out host port w in
           if ok then
-            let p := get_proxy w app in
-            let w := set_proxy w app (p <| px_cin := skipn (Z.to_nat len) (px_cin p) |>) in
-            let (w, c1) := proxy_requests f cx app w in (w, c0 ++ c1)
+            let (w, c1) := proxy_requests f cx app (proxy_consume w app len) in (w, c0 ++ c1)
           else let (w, c1) := proxy_close_connection cx app w in (w, c0 ++ c1)
       | PBad => proxy_close_connection cx app w
       end
@@ -456,7 +467,7 @@ Fixpoint proxy_requests (fuel : nat) (cx : ctx) (app : Z) (w : net) : net * list
 
 Definition proxy_new (cx : ctx) (app node port : Z) (w : net) : net * list kc :=
   let a := px_acc app in
-  let w := set_proxy w app (mkProxy node false [] [] false false) in
+  let w := set_proxy w app (mkProxy node false [] [] false false [] 0) in
   let w := set_rslv w (px_rslv app) (mkRslv node []) in
   let w := set_tcp w a (tcp_fresh node true) in
   let w := set_tcp w (px_client app) (tcp_fresh node false) in
@@ -479,13 +490,19 @@ Definition proxy_callback (cx : ctx) (app k : Z) (args : list Z) (w : net) : net
       if e =? EC_ABORTED then (w, [])
       else if negb (e =? EC_OK) then proxy_close_connection cx app w
       else
+        let w := set_proxy w app (p <| px_roff := 0 |>) in
         let (w, c0) := tcp_abort_recv (px_client app) w in
         let (w, c1) := tcp_async_read_impl (px_client app) [65536] (hid_app app 1) w in (w, c0 ++ c1)
   | 1, e :: _ :: _ :: _ :: data =>
       if negb (e =? EC_OK) then proxy_close_connection cx app w
       else
-        let w := set_proxy w app (p <| px_cin := px_cin p ++ data |>) in
-        proxy_requests (S (List.length (px_cin p ++ data))) cx app w
+        (* the bytes were stored at the offset the read was issued with; m_num_client_in_bytes (which
+           close_connection may have reset since) grows by their number *)
+        let phys := phys_write (px_phys p) (px_roff p) data in
+        let num := (List.length (px_cin p) + List.length data)%nat in
+        let cin := firstn num (pad_to num phys) in
+        let w := set_proxy w app (p <| px_cin := cin |> <| px_phys := phys |>) in
+        proxy_requests (S num) cx app w
   | 2, e :: n :: eps =>
       let w := set_proxy w app (p <| px_resolving := false |>) in
       if negb (e =? EC_OK) || (n =? 0) then proxy_error cx app 503 S_503A w
